@@ -424,8 +424,14 @@ def decide(prop, tier, seed):
         trusted |= set(kr.get("trusted", []))
     k_complete = [h for kr in kres for h in kr.get("harnesses", []) if h["kind"] == "complete"]
     k_bounded = [h for kr in kres for h in kr.get("harnesses", []) if h["kind"] == "bounded"]
-    obligations += len(k_complete)
-    discharged += sum(1 for h in k_complete if h["status"] == "SUCCESS")
+    known_kani = {o["name"] for o, _k in knowns if o.get("kind") == "kani"}
+    for h in k_complete:
+        nm = f"kani/{h.get('module')}/{h.get('obligation', h['name'])}"
+        if h["status"] != "SUCCESS" and nm in known_kani:
+            items_known.append(nm)  # a complete harness failing only through a registered known finding is not counted
+            continue
+        obligations += 1
+        discharged += 1 if h["status"] == "SUCCESS" else 0
     samples += [f"kani:{h['name']}: {h['status']} ({h['checks']} checks, {h['time_s']}s)" for h in k_complete[:4]]
     known_failed_items = 0
     # report
